@@ -71,7 +71,7 @@ def gen_cases(tier, seed):
     for oc in OUTCOMES[:4]:
         for delay_at in ('plum_to_kiwi_future', 'on_done', None):
             cases.append({'adapter': 'comm_thread', 'depth': 1, 'order': [0], 'outcome': oc, 'thread': True, 'delay_at': delay_at})
-    for scen in ('run', 'run-twice', 'cancel-run', 'raise', 'raise-run', 'args', 'cancel-twice-run', 'cancel-inside-run', 'cancel-inside-raise'):
+    for scen in ('run', 'run-twice', 'cancel-run', 'raise', 'raise-run', 'args', 'cancel-twice-run', 'cancel-inside-run', 'cancel-inside-raise', 'run-inside-run', 'run-inside-raise'):
         cases.append({'adapter': 'action', 'scenario': scen, 'depth': 1, 'order': [], 'outcome': ['value', 1], 'thread': False})
     return cases
 
@@ -353,19 +353,29 @@ def run_action(case):
         calls.append((args, kwargs))
         if scen.startswith('cancel-inside'):
             holder['cancel_returned'] = holder['action'].cancel()  # re-entrant cancel from code the action itself triggered
-        if scen.startswith('raise') or scen == 'cancel-inside-raise':
+        if scen.startswith('run-inside') and len(calls) == 1:
+            # re-entrant run() from code the action itself triggered: must be refused like any second run
+            try:
+                holder['action'].run()
+                holder['inner'] = 'ran'
+            except Exception as exc:  # noqa: BLE001
+                holder['inner'] = 'refused:%s' % type(exc).__name__
+        if scen.startswith('raise') or scen in ('cancel-inside-raise', 'run-inside-raise'):
             raise AdapterError('action-failed')
         return ['ran', list(args), kwargs]
 
     try:
         action = futures.CancellableAction(fn, cookie='c')
         holder['action'] = action
-        if scen.startswith('cancel-inside'):
+        if scen.startswith(('cancel-inside', 'run-inside')):
             # the function ran, so its outcome must be reported through the action and run() must not blow up
             try:
                 action.run()
             except Exception as exc:  # noqa: BLE001
-                viol.append(V('action-run-raised', 'action-run-raised:' + scen, 'run() raised %r when the action was cancelled from inside its own function' % (exc,)))
+                viol.append(V('action-run-raised', 'action-run-raised:' + scen, 'run() raised %r when the action was %s from inside its own function' % (
+                    exc, 'cancelled' if scen.startswith('cancel') else 'run again')))
+            if scen.startswith('run-inside') and not str(holder.get('inner')).startswith('refused'):
+                viol.append(V('action-reran', 'action-reran:' + scen, 'run() called from inside the action\'s own function was not refused (%s)' % holder.get('inner')))
             got = _describe(action)
             exp = ['exception', AdapterError('action-failed')] if scen.endswith('raise') else ['result', ['ran', [], {}]]
             if got != exp:
